@@ -790,6 +790,81 @@ def run(prog, rep, tier):
     if n1314 < 2:
         raise CheckerError("R13.14: only %d lifted C14 instances" % n1314)
 
+    # ------------------------------------------------------------ R13.15 every piece cut from a multi-line message is written
+    # The decorated evtx/journal printers cut the message at each newline and write every piece behind
+    # its own prefix.  From the point where a piece is cut no path may go round the loop without
+    # writing it - except through a test that provably cannot hold (`piece.is_empty()` for a piece cut
+    # as `data[a .. a + b + CHARSZ]`, which is never empty).  A length test such as `len() <= CHARSZ`
+    # drops the message's empty lines from the decorated output only (and from no line count).
+    import slices as _sl15
+    R1315 = rep.rule("R13.15", "in the decorated evtx/journal printers no piece of the message goes unwritten (dead emptiness tests excepted)")
+    n1315 = 0
+    for p_ in sorted(prog.facts.bodies):
+        if not p_.startswith(PR + "print_") or "{closure" in p_ or not ("evtx" in p_ or "journal" in p_) or "prepend" not in p_:
+            continue
+        pb_ = prog.body(p_)
+        pieces = []
+        for (c, _base, st_, en_) in _sl15.index_calls(pb_):
+            in_loop = [h for (_t, h) in pb_.back_edges() if c.bb in pb_.loop_blocks(h)]
+            if in_loop and st_ is not None and en_ is not None:
+                pieces.append((c, st_, en_, min(in_loop, key=lambda h: len(pb_.loop_blocks(h)))))
+        all_idx = _sl15.index_calls(pb_)
+
+        def _derived(c0):
+            d_ = {c0.bb}
+            grew_ = True
+            while grew_:
+                grew_ = False
+                for (x, _b, _s, _e) in all_idx:
+                    if x.bb not in d_ and any(o_[0] == "call" and o_[1] in d_ for o_ in pb_.origins(x.args[0], through_calls=("::deref", "::as_ref"))):
+                        d_.add(x.bb)
+                        grew_ = True
+            return d_
+        top = []
+        for c, st_, en_, hdr in pieces:
+            if not any(c.bb in _derived(c2) and c2 is not c for c2, _s, _e, _h in pieces):
+                top.append((c, st_, en_, hdr))
+        for c, st_, en_, hdr in top:
+            n1315 += 1
+            der_ = _derived(c)
+            writes = set()
+            for w in pb_.live_calls():
+                if w.d.split("::")[-1] in ("extend_from_slice", "write_all", "write") and len(w.args) > 1:
+                    if any(o_[0] == "call" and o_[1] in der_ for o_ in pb_.origins(w.args[1], through_calls=("::deref", "::as_ref"))):
+                        writes.add(w.bb)
+            # provably non-empty: end = (start + x) + k with k >= 1
+            def _has_const_ge1(sig_):
+                if sig_[0] == "k":
+                    return isinstance(sig_[1], int) and sig_[1] >= 1
+                if sig_[0] == "Add":
+                    return _has_const_ge1(sig_[1]) or _has_const_ge1(sig_[2])
+                return False
+
+            def _mentions(sig_, v_):
+                if sig_ == v_:
+                    return True
+                return sig_[0] == "Add" and (_mentions(sig_[1], v_) or _mentions(sig_[2], v_))
+            nonempty = en_[0] == "Add" and _has_const_ge1(en_) and _mentions(en_, st_)
+            dead = set()
+            if nonempty:
+                for e in pb_.live_calls():
+                    if e.d.split("::")[-1] == "is_empty" and e.args and e.target is not None and any(o_[0] == "call" and o_[1] == c.bb for o_ in pb_.origins(e.args[0], through_calls=("::deref", "::as_ref"))):
+                        t = pb_.term(e.target)
+                        if t[0] == "switch":
+                            arms = {int(v_): tb_ for v_, tb_ in t[2]}
+                            tt = t[3] if 0 in arms else arms.get(1)
+                            if tt is not None and pb_.pred[tt] == [e.target]:
+                                dead.add(tt)
+            around = hdr in pb_.reachable(c.target if c.target is not None else c.bb, writes | dead)
+            rep.examined(R1315, "%s|piece@bb%d" % (p_, c.bb), sample={"printer": p_.split("::")[-1], "line": c.line, "writes_of_the_piece": len(writes), "piece_provably_non_empty": nonempty, "dead_emptiness_arms": len(dead), "way_round_without_writing": around})
+            if not writes:
+                continue
+            if around:
+                rep.violation(R1315, "%s|piece|skipped" % p_, "%s (line %d): after a piece of the message is cut there is a way round the loop that does not write it and is not provably dead; "
+                              "empty lines inside an evtx/journal message are then missing from the decorated output while the undecorated and the colour printers print them, and the summary still counts them" % (p_.split("::")[-1], c.line))
+    if n1315 < 4:
+        raise CheckerError("R13.15: only %d pieces found in the decorated printers" % n1315)
+
     return rep.finish(
         "Static necessary-condition check of the decoration path: for all 8 flag combinations of all 4 dispatchers the selected variant writes, "
         "per printed line, the file field then the date field before any message bytes exactly when the flags say so (must-pass-through on the "
